@@ -75,7 +75,23 @@ def link_grammar(ctx, mutate=None, tag=""):
         T = ctx.memo("parser_tables", lambda: native.one({"cmd": "parser_tables"}))
     except Exception:
         return [Obl("gram:tables/dump", FN, "table", "live parser tables can be dumped", status=ERROR, backend="native", detail=traceback.format_exc()[-1500:], props=PROPS_ALL)]
-    real = {(p["name"], tuple(p["rhs"])): p for p in T["productions"]}
+    ren = nonterminal_renaming(T, G)
+    if ren:
+        ctx.notes.append("grammar compared modulo nonterminal renaming: %s" % ren)
+
+    def rn(x):
+        return ren.get(x, x)
+
+    def rn_attr(a):
+        import re as _re
+        m = _re.match(r"^(.*?)(\d+)$", a)
+        if m and m.group(1) in ren:
+            return ren[m.group(1)] + m.group(2)
+        return ren.get(a, a)
+    for p in T["productions"]:
+        p["_orig"] = (p["name"], tuple(p["rhs"]))
+        p["names_ref"] = [rn_attr(a) for a in p["names"]]
+    real = {(rn(p["name"]), tuple(rn(x) for x in p["rhs"])): p for p in T["productions"]}
     pre = "gram%s:" % tag
     # ---- table-level obligations
     missing = sorted(set(G.G_REF) - set(real))
@@ -124,8 +140,8 @@ def link_grammar(ctx, mutate=None, tag=""):
         fn = next((d for d in defs if p["lineno"] is not None and (d.lineno == p["lineno"] or any(dec.lineno == p["lineno"] for dec in d.decorator_list))), None)
         if mutate is not None:
             # mutated source: line numbers may shift; fall back to name + decorator text
-            cands = [d for d in defs if d.name == key[0] and any(isinstance(dec, ast.Call) and dec.args and isinstance(dec.args[0], ast.Constant)
-                                                                 and tuple(dec.args[0].value.split()) == key[1] for dec in d.decorator_list)]
+            cands = [d for d in defs if d.name == p["_orig"][0] and any(isinstance(dec, ast.Call) and dec.args and isinstance(dec.args[0], ast.Constant)
+                                                                        and tuple(dec.args[0].value.split()) == p["_orig"][1] for dec in d.decorator_list)]
             fn = cands[0] if cands else fn
         if key not in G.G_REF:
             continue
@@ -139,7 +155,7 @@ def link_grammar(ctx, mutate=None, tag=""):
             if isinstance(base, S.Sym) and base.kind == "production":
                 if attr not in names:
                     raise S.GenRaise("AttributeError", "production has no attribute %s (has %s)" % (attr, sorted(names)))
-                return S.Sym(attr, "attr")
+                return S.Sym(rn_attr(attr), "attr")
             return NotImplemented
         ex = S.SExec(classdef=cls, enums=enums, models=models, on_attr=on_attr)
         try:
@@ -155,6 +171,48 @@ def link_grammar(ctx, mutate=None, tag=""):
         except (S.Unsupported, S.Undetermined) as e:
             out.append(Obl(oid, FN + "." + key[0], "post", "action body inside the supported subset", status=UNDECIDED, backend="structural", detail=str(e), props=props))
     return out
+
+
+def nonterminal_renaming(T, G):
+    """map the real grammar's nonterminal names onto G_ref's when the two differ only by a renaming of nonterminals
+    (colour refinement on production shapes with terminals fixed).  {} when names already agree or no bijection is found."""
+    real_nts = {p["name"] for p in T["productions"]}
+    ref_nts = {k[0] for k in G.G_REF}
+    if real_nts == ref_nts:
+        return {}
+
+    def prods_of(pairs):
+        d = {}
+        for lhs, rhs in pairs:
+            d.setdefault(lhs, []).append(tuple(rhs))
+        return d
+    rp = prods_of((p["name"], p["rhs"]) for p in T["productions"])
+    gp = prods_of(G.G_REF.keys())
+
+    def refine(prods, nts):
+        col = {n: 0 for n in nts}
+        for _ in range(len(nts) + 2):
+            sig = {n: tuple(sorted(tuple(("N", col[x]) if x in nts else ("T", x) for x in rhs) for rhs in prods[n])) for n in nts}
+            # also: where the nonterminal is used
+            uses = {n: tuple(sorted((col[l], i, len(rhs)) for l in nts for rhs in prods[l] for i, x in enumerate(rhs) if x == n)) for n in nts}
+            ids = {}
+            new = {}
+            for n in sorted(nts, key=lambda n: (sig[n], uses[n])):
+                new[n] = ids.setdefault((sig[n], uses[n]), len(ids))
+            # make colours canonical across the two grammars: use the signature itself as colour
+            col = {n: hash((sig[n], uses[n])) for n in nts}
+        return col
+    cr, cg = refine(rp, real_nts), refine(gp, ref_nts)
+    inv = {}
+    for n, c in cg.items():
+        inv.setdefault(c, []).append(n)
+    ren = {}
+    for n, c in cr.items():
+        if len(inv.get(c, [])) == 1:
+            ren[n] = inv[c][0]
+    if len(ren) != len(real_nts) or len(set(ren.values())) != len(ren):
+        return {}
+    return {k: v for k, v in ren.items() if k != v}
 
 
 def model_info():
